@@ -19,7 +19,7 @@ const levelMC = "model_checking"
 
 var sweepAssume = []string{
 	"L1 bounds: only patterns/haystacks within the stated AST-size, symbol-count and embedding bounds are explored",
-	"L4 alphabet: haystack bytes are class representatives (a b A 0 space newline é É, raw 0xC3 0xA9 0xFF) plus per-seed literal tokens",
+	"L4 alphabet: haystack bytes are class representatives (a b A 0 space newline é É, raw 0xC3 0xA9 0xFF 0xED 0xA0 0x80) plus per-seed literal tokens",
 	"oracle: package regexp of the Go toolchain the repository builds with",
 	"known findings are matched by exact case hash (op, mode, pattern, haystack, args, observed result); see /verif/known_findings.json",
 }
@@ -34,15 +34,15 @@ func sweepTier(tier string, quick, thorough bx.Tier) bx.Tier {
 var (
 	// nSeeds: the strategy seeds themselves come first in S(k) and are the only seed patterns that get embeddings
 	nSeeds     = len(space.Seeds)
-	quickSweep = bx.Tier{PN: 4, SK: 1, LASCII: 4, LBig: 3, LUTF8: 3, LUTF8Big: 2, LRaw: 3, LRawBig: 2, EmbedW: 1, EmbedPN: 3, TokL: 3, TokN: 5, SeedEmbW: 2, SeedEmbTokN: 8, SeedJ: []int{0, 33}, SeedEmbFirst: nSeeds, SeedTokL: 5, SeedTokN: 6, Budget: 150 * time.Second}
+	quickSweep = bx.Tier{PN: 4, SK: 1, LASCII: 4, LBig: 3, LUTF8: 3, LUTF8Big: 2, LRaw: 3, LRawBig: 2, EmbedW: 1, EmbedPN: 3, TokL: 3, TokN: 5, SeedEmbW: 2, SeedEmbTokN: 8, SeedJ: []int{0, 33}, SeedEmbFirst: nSeeds, SeedTokL: 6, SeedTokN: 5, Budget: 150 * time.Second}
 	// thorough = the quick space plus every 5-node pattern (on ASCII haystacks of <= 3 symbols) and the two-edit
 	// seed neighbourhoods (on their token words): a superset, so one known-finding set serves both tiers
-	thoroughSweep = thoroughOf(quickSweep)
+	thoroughSweep = thoroughOf(quickSweep, 3)
 )
 
-func thoroughOf(q bx.Tier) bx.Tier {
+func thoroughOf(q bx.Tier, lhuge int) bx.Tier {
 	t := q
-	t.HugePN, t.LHuge = q.PN, min(3, q.LASCII)
+	t.HugePN, t.LHuge = q.PN, lhuge
 	t.PN, t.SK = q.PN+1, q.SK+1
 	t.Budget = 25 * time.Minute
 	return t
@@ -107,7 +107,7 @@ func init() {
 		})
 	// the enumeration / cross-view checks run ~10x more evaluations per (pattern, haystack): smaller haystack sets
 	q4 := bx.Tier{PN: 4, SK: 1, LASCII: 3, LBig: 2, LUTF8: 2, LUTF8Big: 2, LRaw: 2, LRawBig: 1, EmbedW: 1, EmbedPN: 2, TokL: 2, TokN: 5, SeedEmbW: 2, SeedEmbTokN: 8, SeedJ: []int{0, 33}, SeedEmbFirst: nSeeds, SeedTokL: 4, SeedTokN: 6, Budget: 150 * time.Second}
-	t4 := thoroughOf(q4)
+	t4 := thoroughOf(q4, 2) // ~40 evaluations per (pattern, haystack): the 5-node patterns get ASCII haystacks of <= 2 symbols
 	sweepProp("C04", "All FindAll* forms, Count, iterators (with early break), AppendAll*Index (three dst shapes) and the Engine enumeration API compared with regexp.FindAllSubmatchIndex for n in {-1,0,1,2,3,|m|,|m|+1}."+sweepRuleTail, true, false,
 		q4, t4, func(tier string) bx.PerHay {
 			return func(cx *bx.Ctx, h []byte, hi int) bool { return cx.OpsC04(h, tier == "thorough") }
